@@ -23,7 +23,7 @@ var registerOnce sync.Once
 // Fault is one injected transient failure of the tier1 -> tier2 call.
 type Fault struct {
 	Call  int    `json:"call"`  // n-th ProcessRange call of the request (0-based)
-	Kind  string `json:"kind"`  // before | header | overloaded | drop-mid | drop-mid-canceled | drop-after-done
+	Kind  string `json:"kind"`  // before | header | overloaded | drop-mid | drop-mid-canceled | drop-mid-eof | drop-after-done
 	After int    `json:"after"` // drop-mid: messages forwarded before the drop
 }
 
@@ -123,12 +123,16 @@ func (f *fakeClient) ProcessRange(ctx context.Context, in *pbssinternal.ProcessR
 	}
 	f.remote.svcOnce.Do(func() { f.remote.svc = service.VerifNewTier2(f.cfg.streamFactory(true), f.remote.Limit) })
 	svc := f.remote.svc
-	dropMid := fault != nil && (fault.Kind == "drop-mid" || fault.Kind == "drop-mid-canceled")
+	dropMid := fault != nil && (fault.Kind == "drop-mid" || fault.Kind == "drop-mid-canceled" || fault.Kind == "drop-mid-eof")
 	dropErr := status.Error(codes.Unavailable, "transport is closing (injected)")
 	if fault != nil && fault.Kind == "drop-mid-canceled" {
 		// what tier1 receives when the tier2 side loses its caller or goes away: toGRPCError maps it to Canceled,
 		// while tier1's own request context is alive
 		dropErr = status.Error(codes.Canceled, "context canceled (injected: the remote end went away)")
+	}
+	if fault != nil && fault.Kind == "drop-mid-eof" {
+		// the text grpc-go gives a stream whose connection is cut while a message is awaited
+		dropErr = status.Error(codes.Unavailable, "error reading from server: EOF")
 	}
 	go func() {
 		defer close(ch)
